@@ -53,10 +53,22 @@ static void part_norm(const std::vector<unsigned>& ns) {
         const Ext& E = EXTS[ex];
         std::vector<float> dat((size_t)n * n * nb);
         auto runone = [&](const char* what) {
-            auto ps = mkps(E.qmin, E.qmax, E.pmin, E.pmax, fill, dat.data());
-            renorm(*ps);
-            R.eval(kase + " " + what, mcx::fnv(ps->getData(), 4 * dat.size(), mcx::fnvs(kase)), nb == 1 && dk == 2);
-            check_pop(kase, *ps, fill, n, what);
+            // twice: with charge in the buckets the pattern declares empty (it must be removed), and with those buckets really empty
+            for (int clear_empty = 0; clear_empty < 2; clear_empty++) {
+                bool has_empty = false; for (unsigned b = 0; b < nb; b++) if (fill[b] == 0) has_empty = true;
+                if (clear_empty && !has_empty) break;
+                std::vector<float> d2 = dat;
+                if (clear_empty) for (unsigned b = 0; b < nb; b++) if (fill[b] == 0) std::fill(d2.begin() + (size_t)b * n * n, d2.begin() + (size_t)(b + 1) * n * n, 0.f);
+                const std::string w2 = std::string(what) + (clear_empty ? " empty-buckets-empty" : "");
+                auto ps = mkps(E.qmin, E.qmax, E.pmin, E.pmax, fill, d2.data());
+                // the state right after the shorthand the main loop uses (nothing refreshed by hand afterwards) ...
+                ps->updateXProjection(); ps->integrateAndNormalize();
+                check_pop(kase, *ps, fill, n, (w2 + " [right after integrateAndNormalize()]").c_str());
+                // ... and after the long-hand sequence
+                renorm(*ps);
+                R.eval(kase + " " + w2, mcx::fnv(ps->getData(), 4 * dat.size(), mcx::fnvs(kase)), nb == 1 && dk == 2);
+                check_pop(kase, *ps, fill, n, w2.c_str());
+            }
         };
         if (dk == 0) {
             for (unsigned x = 0; x < n; x++) for (unsigned y = 0; y < n; y++) {
